@@ -31,7 +31,30 @@ def sample_env(names, rng):
     return env
 
 
-def decide_equal(pairs, label, timeout=20, rng=None, assume=(), counters=None, tol=1e-9):
+def frontier(pairs, resolver=None):
+    """Congruence descent: walk both DAGs in lockstep while operators agree; return the
+    minimal sub-term pairs whose equality implies equality of all input pairs.
+    resolver(a, b) may map a pair of opaque function results (e.g. two spsolve outputs) to
+    the pairs of their inputs (function congruence)."""
+    out, seen = {}, set()
+    stack = list(pairs)
+    while stack:
+        a, b = stack.pop()
+        if a is b or (a.id, b.id) in seen:
+            continue
+        seen.add((a.id, b.id))
+        if a.op == b.op and len(a.args) == len(b.args) and a.op not in ("c", "v", "b", "nonfinite"):
+            if a.op == "uf" and a.args[0] != b.args[0]:
+                out[(a.id, b.id)] = (a, b); continue
+            stack.extend(zip(sym.children(a), sym.children(b)))
+        elif resolver is not None and a.op == "v" and b.op == "v" and resolver(a, b) is not None:
+            stack.extend(resolver(a, b))
+        else:
+            out[(a.id, b.id)] = (a, b)
+    return list(out.values())
+
+
+def decide_equal(pairs, label, timeout=20, rng=None, assume=(), counters=None, tol=1e-9, resolver=None, opaque_prefix=None):
     """pairs: list of (a, b) nodes.  Returns (verdict, info) with verdict in
     'structural' | 'unsat' | 'differs' (numerically different at a sampled point: info=env) |
     'sat' (solver model, numerically equal at samples) | 'unknown'."""
@@ -43,7 +66,26 @@ def decide_equal(pairs, label, timeout=20, rng=None, assume=(), counters=None, t
         return "structural", None
     rng = rng or np.random.default_rng(0)
     names = sorted(sym.support(*[a for a, _ in diff], *[b for _, b in diff]))
-    for trial in range(3):
+    # 1) congruence descent to small frontier lemmas (sufficient, not necessary)
+    fr = frontier(diff, resolver)
+    cnt("frontier_pairs", len(fr))
+    if len(fr) <= 400 and all(sym.size(a, b) <= 4000 for a, b in fr):
+        ok = True
+        for a, b in fr:
+            q = smt.Query(label + "/frontier", flatten_div=True)
+            for n in sorted(sym.support(a, b)):
+                q.declare(n)
+                if is_positive_name(n): q.add(f"(> {n} 0.0)")
+            for a_ in assume: q.add(a_)
+            q.add(sym.ne(a, b))
+            r = q.check(timeout=min(timeout, 10))
+            cnt(f"frontier_query_{r.status}")
+            if r.status != "unsat":
+                ok = False; break
+        if ok:
+            return "unsat", None
+    opaque = opaque_prefix is not None and any(n.startswith(opaque_prefix) for n in names)
+    for trial in range(0 if opaque else 3):
         env = sample_env(names, rng)
         va = sym.evalf([a for a, _ in diff], env); vb = sym.evalf([b for _, b in diff], env)
         for x, y in zip(va, vb):
